@@ -53,7 +53,8 @@ claim('C12',
       'over those contracts for every option state, objective count and index. ProblemFlattener::Convert(MutObjective): the objective '
       'handed to AddObjective has the sense read, the linear part of the file, and the linear terms, quadratic terms and constant of the '
       'flattened nonlinear part, with sorted terms, exactly once. The objective number handed to the .sol writer by HandleSolution and '
-      'HandleFeasibleSolution (final and intermediate files) is objno_used().',
+      'HandleFeasibleSolution (final and intermediate files) is objno_used(). NLProblemBuilder::OnHeader allocates exactly resulting_nobj(h.num_objs) '
+      'objectives.',
       'Trusted: CBMC, extractor, one solver object with members as globals, virtual dispatch resolved to the '
       'SolverNLHandlerImpl overrides, invariant objno_ >= -1 (proved for SetObjNo, initialiser read from the source). '
       'Not decided: discarding of skipped objective expressions/G segments (recursive readers), the expression visitor and the '
@@ -108,7 +109,8 @@ claim('C11',
       '(std::filesystem) dropped. Not decided: the std::set lookup of FindOption by full name, synonym / wildcard matching beyond the bounded stand-in (std::string modelled in C), echo, the quoted-string '
       'value text, termination when HandleUnknownOption returns without consuming. Native replay: sweep of option texts, '
       'queries, integer ranges and source combinations under ASan.',
-      'DESIGN.md 4 C11')
+      'DESIGN.md 4 C11',
+      technique=TECH + '; plus two BOUNDED stand-ins by plain CBMC with --unwind and unwinding assertions (wildcard match and synonym test of option lookup: strings of at most 5 characters), labelled bounded in the evidence and not counted as proved')
 
 claim('C05',
       '(1) Message clause: function and loop contracts on the real internal::WriteMessage with fputc/fwrite bound to a ghost '
@@ -145,7 +147,8 @@ claim('C03',
       'handler receives the bounds / the complementarity entry that were written (the writer\'s DBL_MAX infinity convention stated); the lines of '
       'VPut, FuncPut, OPut1-3, OPutN (argument count, halved for a piecewise-linear term), sparse entries, suffix headers, ColSizeWriter (running '
       'sum for k, plain for K), WriteColumnSizes (letter, num_vars - 1, writer mode = announced mode), and the J<i> <nnz> / G<i> <nnz> vector headers '
-      'in order (loop contracts). (1) Binary numeric constants: the real BinaryFormatter::nput, the real variadic BinaryFormatter::apr (for the '
+      'in order (loop contracts); BOUNDED stand-ins (not counted as proved): TextFormatter::apr %d / %z for numbers of at most 3 digits - sign '
+      'first, then the digits. (1) Binary numeric constants: the real BinaryFormatter::nput, the real variadic BinaryFormatter::apr (for the '
       'three formats nput uses) and the real NLReader::ReadConstant with BinaryReader::{ReadInt<short|int|long>, ReadDouble, Read} '
       'are chained over one fully symbolic double: every double is read back with the identical value, bit-identical apart '
       'from the sign of zero, NaN as NaN, and the reader consumes exactly the bytes written. (2) Opcode tables: for every '
@@ -163,7 +166,7 @@ claim('C03',
       'restricted to these lemmas. Native replay: replay/c03_replay.cc, replay/c03_header_replay.cc (headers, defined-variable positions through '
       'the real WriteNLFile / ReadNLFile).',
       'DESIGN.md 4 C03',
-      technique='contract-based deductive verification: CBMC 6.11 DFCC function/loop contracts (writer structure) and contract-style assertions over the real extracted bodies, discharged for all inputs (formatters and header: loop-free after complete unwinding; no DFCC there because of varargs)')
+      technique='contract-based deductive verification: CBMC 6.11 DFCC function/loop contracts (writer structure) and contract-style assertions over the real extracted bodies, discharged for all inputs (formatters and header: loop-free after complete unwinding; no DFCC there because of varargs); plus two BOUNDED stand-ins (integer printing of the text formatter, numbers of at most 3 digits), labelled bounded in the evidence and not counted as proved')
 
 claim('C02',
       'Function and loop contracts on the real leaf readers - ReaderBase::ReadChar, TextReader::{SkipSpace, ReadTillEndOfLine, '
@@ -209,7 +212,10 @@ claim('C04',
       'NodeRange::{operator==, ExtendableBy, TryExtendBy, ExtendBy}: the set of linked (source position, target position) pairs after the '
       'call is exactly the old set plus the pairs of the new entry (arbitrary witness pair); the same for CopyLink::AddEntry with position-wise pairs; '
       'Many2ManyLink::Distr / Collect (two nested loop contracts each): every position of the sending range reaches every position of the receiving '
-      'range exactly once with the value read there, and nothing is written outside the receiving range.',
+      'range exactly once with the value read there, and nothing is written outside the receiving range; ValueNode::Add / Select hand out '
+      'the range after the declared size / the named range and grow the size to cover it (real NodeRange::Assign); FlatBackend::ReadModelSuffix '
+      'reads each of the three value vectors of a multi-kind model suffix from the suffix of its own item kind; the entry loops of a link range '
+      '(DistributeFromSrc2Dest in creation order, CollectFromDest2Src in reverse order, each entry once).',
       'Trusted: CBMC, extractor, value vectors as (pointer,length), Get/Set accessors bound to three node arrays with the proved '
       'SetNum rule, target entries cleaned to zero before a transfer (assumed), no NaN. Not decided: the link graph itself '
       '(the order in which links run, CopySrcDest of CopyLink, autolinking over std::deque), exactly-one-value-per-item, CleanUpValueNodes, '
@@ -229,7 +235,10 @@ claim('C07',
       'Variables: SolutionChecker::CheckVars (loop contract, witness variable): every checked variable has its lower bound (lb - x relative '
       'to lb), upper bound (x - ub relative to ub) and - when integer - integrality (absolute tolerance only) passed to the violation counter. '
       'Constraints: ConstraintKeeper::ComputeViolations (loop contract, witness constraint): a constraint that is not unused is checked exactly when '
-      'one of its classes (original 2 / intermediate 4 / sent to the solver 8) is requested, and counted under the right heading.',
+      'one of its classes (original 2 / intermediate 4 / sent to the solver 8) is requested, and counted under the right heading. '
+      'Objectives: SolutionChecker::CheckObjs: every objective with a reported value is checked once, |reported - recomputed| relative to the '
+      'recomputed value, with the feasibility tolerances in their places (absolute, relative). ComputeValue(PLConstraint): breakpoint values, '
+      'the side the left / right extension terms move the value to (products opaque), segment search under a loop contract.',
       'Trusted: CBMC (fabs/round models), extractor, arguments are valid variable indices (model invariant, assumed at each access), '
       'no NaN in the point. Not decided: exact counting for Count/Numberof, the quotient of Div (double division is beyond every '
       'installed back end), the converse of AllDiff, transcendental evaluators, the order of the keepers, recomputation of '
@@ -247,7 +256,8 @@ claim('C06',
       'and containing 0 for an even exponent around 0), the bounds and type of affine and quadratic expressions (expr_bounds.h: which bound of which '
       'variable enters which side of each term by the sign of its coefficient, each term once, INTEGER only for integer variables and integer '
       'coefficients - witness term, loop contracts; ProductBounds as the hull of the four corner products / [0 or min, max] of the squares, the '
-      'products being opaque ghost values; AddBoundsAndType), and the result boxes of Exp, ExpA, Sin, Cos, Tanh, Asin, Acos, Atan, Cosh, Acosh - for '
+      'products being opaque ghost values; AddBoundsAndType), down-propagation of And / Or / Not results (a false conjunction / true disjunction '
+      'implies nothing about a single argument; Not mirrors the box), and the result boxes of Exp, ExpA, Sin, Cos, Tanh, Asin, Acos, Atan, Cosh, Acosh - for '
       'argument lists and models of any size: the array functions return exactly the min/max of the box ends (witness position + '
       'arbitrary common bound), types are INTEGER only for integer-valued arguments, aliases only when exact, fixed results only '
       'when justified for every body value, range boxes contain the range constants of the functions.',
